@@ -391,7 +391,8 @@ func (c *converter) SliceInstantiation(values []string, valueUsed bool) (string,
 		vals := ""
 
 		for _, value := range values {
-			vals = fmt.Sprintf(`%s \"%s\"`, vals, value)
+			// References are expanded by eval itself so that run-time values are never evaluated a second time.
+			vals = fmt.Sprintf(`%s \"%s\"`, vals, strings.ReplaceAll(value, "$", `\$`))
 		}
 		c.addLine(fmt.Sprintf(`eval "%s=(%s)"`, c.varEvaluationString(helper, false), strings.TrimSpace(vals)))
 	}
